@@ -295,7 +295,7 @@ def analyse(rep, prog, name, full, also=()):
         if other:
             rep.unk("PERM.random", fwhere(f, other[0].node), "the random relabelling is not drawn with rng.permutation(p); this way of drawing it (%s) is not read" % other[0].target)
         else:
-            rep.bad("PERM.random", fwhere(f), "no rng.permutation(p) from default_rng(random_state): the nodes are not relabelled at random")
+            rep.bad_form("PERM.random", fwhere(f), "no rng.permutation(p) from default_rng(random_state): the nodes are not relabelled at random")
         return
     if perm.recv != RNG:
         rep.bad("PERM.random", fwhere(f, perm.node), "the permutation is drawn from %s, not from default_rng(random_state)" % fmt(perm.recv)[:60])
@@ -406,12 +406,12 @@ def analyse(rep, prog, name, full, also=()):
         rep.unk("PERM.ordering", fwhere(f, ords[0][1].node), "the returned ordering is %s: whether this is argsort(permutation) is not read" % fmt(o)[:80])
     # W = mask * weights
     if not (W[0] == "binop" and W[1] == "*"):
-        rep.bad("WEIGHTS.masked", fwhere(f), "weight matrix is not `mask * weights`: %s" % fmt(W)[:80])
+        rep.bad_form("WEIGHTS.masked", fwhere(f), "weight matrix is not `mask * weights`: %s" % fmt(W)[:80])
         return
     a, b = W[2], W[3]
     wcall = [x for x in (a, b) if gen_call(x, "uniform") and (x[3] or kwargs_of(x).get("low") is not None)]
     if len(wcall) != 1:
-        rep.bad("WEIGHTS.uniform", fwhere(f), "no factor of the weight matrix is rng.uniform(w_min, w_max, ...)")
+        rep.bad_form("WEIGHTS.uniform", fwhere(f), "no factor of the weight matrix is rng.uniform(w_min, w_max, ...)")
         return
     wt = wcall[0]
     mask = b if wt is a else a
@@ -458,7 +458,7 @@ def analyse(rep, prog, name, full, also=()):
                     rep.bad("BERNOULLI.idiom", fwhere(f), "edge indicator is a constant mask, not a Bernoulli threshold")
             return
         if mask[0] == "ext" and mask[1] in ("numpy.tril", "numpy.ones", "numpy.eye", "numpy.ones_like"):
-            rep.bad("TRIU.strict", fwhere(f), "edge mask is not np.triu(...): %s" % fmt(mask)[:80])
+            rep.bad_form("TRIU.strict", fwhere(f), "edge mask is not np.triu(...): %s" % fmt(mask)[:80])
         else:
             rep.unk("TRIU.strict", fwhere(f), "the edge mask %s is not written with np.triu: not read" % fmt(mask)[:80])
         return
